@@ -20,6 +20,7 @@ fn main() {
     let thorough = args[2] == "thorough";
     let seed: u64 = args[3].parse().unwrap_or(0);
     std::panic::set_hook(Box::new(|_| {}));
+    common::set_ctx_dir(&args[4]);
     let mut out = Out::new(&args[4], seed);
     match stream {
         "c14" => small::c14(&mut out, thorough),
